@@ -751,6 +751,13 @@ func (ex *Exec) mulTerm(a, b Term) Term {
 	if la || lb {
 		return App(SInt, "*", a, b)
 	}
+	a, b = foldLit(a), foldLit(b)
+	if _, l := isLit(a); l {
+		return App(SInt, "*", a, b)
+	}
+	if _, l := isLit(b); l {
+		return App(SInt, "*", a, b)
+	}
 	if x, k, ok := splitOffset(a); ok {
 		return App(SInt, "+", ex.mulTerm(x, b), App(SInt, "*", k, b))
 	}
@@ -794,6 +801,26 @@ type mulDef struct {
 	name Term
 	line int
 	text string
+}
+
+// foldLit folds (+ k1 k2) / (- k1 k2) of numerals.
+func foldLit(t Term) Term {
+	if t.Sort != SInt || !strings.HasPrefix(t.S, "(") {
+		return t
+	}
+	n := parseSx(t.S)
+	if n == nil || len(n.kids) != 3 || (n.head() != "+" && n.head() != "-") {
+		return t
+	}
+	x, okx := litVal(n.kids[1].String())
+	y, oky := litVal(n.kids[2].String())
+	if !okx || !oky {
+		return t
+	}
+	if n.head() == "+" {
+		return IntLit(x + y)
+	}
+	return IntLit(x - y)
 }
 
 // splitOffset recognises (+ x k), (+ k x) and (- x k) with a numeral k.
